@@ -29,13 +29,15 @@ static long op_read1 (SNDFILE *sf) { return vl_read (sf, T_SHORT, 1, sbuf, 1) ; 
 static int  k_read1 (void) { return readable () ? V_VALID : V_INVALID ; }
 static long op_write1 (SNDFILE *sf) { memset (sbuf, 0, sizeof (sbuf)) ; sbuf [0] = 256 ; return vl_write (sf, T_SHORT, 1, sbuf, 1) ; }
 static int  k_write1 (void) { return writable () ? V_VALID : V_INVALID ; }
-static long op_read_odd (SNDFILE *sf) { return vl_read (sf, T_SHORT, 0, sbuf, 3) ; }
+static double dbuf8 [16] ;
+#define ODD(t, T) static long op_read_odd_##t (SNDFILE *sf) { return vl_read (sf, T, 0, dbuf8, 3) ; } \
+	static long op_write_odd_##t (SNDFILE *sf) { memset (dbuf8, 0, sizeof (dbuf8)) ; return vl_write (sf, T, 0, dbuf8, 3) ; } \
+	static long op_read_neg_##t (SNDFILE *sf) { return vl_read (sf, T, (T & 1), dbuf8, -2) ; } \
+	static long op_write_neg_##t (SNDFILE *sf) { return vl_write (sf, T, ! (T & 1), dbuf8, -1) ; }
+ODD (s, T_SHORT) ODD (i, T_INT) ODD (f, T_FLOAT) ODD (d, T_DOUBLE)
 static int  k_read_odd (void) { return CH == 2 && readable () ? V_INVALID : V_NA ; }
-static long op_write_odd (SNDFILE *sf) { return vl_write (sf, T_SHORT, 0, sbuf, 3) ; }
 static int  k_write_odd (void) { return CH == 2 && writable () ? V_INVALID : V_NA ; }
-static long op_read_neg (SNDFILE *sf) { return vl_read (sf, T_INT, 0, sbuf, -2) ; }
 static int  k_read_neg (void) { return readable () ? V_INVALID : V_NA ; }
-static long op_write_neg (SNDFILE *sf) { return vl_write (sf, T_FLOAT, 1, sbuf, -1) ; }
 static int  k_write_neg (void) { return writable () ? V_INVALID : V_NA ; }
 #define SEEKOP(nm, off, wh) static long nm (SNDFILE *sf) { sf_count_t r ; INLIB (r = sf_seek (sf, off, wh)) ; return r ; }
 SEEKOP (op_seek_set1, 1, SEEK_SET)
@@ -65,8 +67,14 @@ static long op_chunksize_null (SNDFILE *sf) { int r ; SF_CHUNK_INFO ci ; (void) 
 static const Op ops [] =
 {	{ "read1", k_read1, op_read1, RK_COUNT }, { "write1", k_write1, op_write1, RK_COUNT }, { "seekset1", k_seek_set1, op_seek_set1, RK_SEEK },
 	{ "getclip", k_valid, op_cmd_getclip, RK_CMD }, { "setstr", k_setstr, op_setstr, RK_CODE },
-	{ "read-odd", k_read_odd, op_read_odd, RK_COUNT }, { "write-odd", k_write_odd, op_write_odd, RK_COUNT },
-	{ "read-neg", k_read_neg, op_read_neg, RK_COUNT }, { "write-neg", k_write_neg, op_write_neg, RK_COUNT },
+	{ "read-odd-short", k_read_odd, op_read_odd_s, RK_COUNT }, { "write-odd-short", k_write_odd, op_write_odd_s, RK_COUNT },
+	{ "read-neg-short", k_read_neg, op_read_neg_s, RK_COUNT }, { "write-neg-short", k_write_neg, op_write_neg_s, RK_COUNT },
+	{ "read-odd-int", k_read_odd, op_read_odd_i, RK_COUNT }, { "write-odd-int", k_write_odd, op_write_odd_i, RK_COUNT },
+	{ "read-neg-int", k_read_neg, op_read_neg_i, RK_COUNT }, { "write-neg-int", k_write_neg, op_write_neg_i, RK_COUNT },
+	{ "read-odd-float", k_read_odd, op_read_odd_f, RK_COUNT }, { "write-odd-float", k_write_odd, op_write_odd_f, RK_COUNT },
+	{ "read-neg-float", k_read_neg, op_read_neg_f, RK_COUNT }, { "write-neg-float", k_write_neg, op_write_neg_f, RK_COUNT },
+	{ "read-odd-double", k_read_odd, op_read_odd_d, RK_COUNT }, { "write-odd-double", k_write_odd, op_write_odd_d, RK_COUNT },
+	{ "read-neg-double", k_read_neg, op_read_neg_d, RK_COUNT }, { "write-neg-double", k_write_neg, op_write_neg_d, RK_COUNT },
 	{ "seek-whence3", k_inv, op_seek_w3, RK_SEEK }, { "seek-whence77", k_inv, op_seek_w77, RK_SEEK }, { "seek-whence0x80", k_inv, op_seek_w80, RK_SEEK },
 	{ "seek-neg", k_inv, op_seek_neg, RK_SEEK }, { "seek-past", k_seek_past, op_seek_past, RK_SEEK },
 	{ "seek-wmode", k_seek_wmode, op_seek_wmode, RK_SEEK }, { "seek-rmode", k_seek_rmode, op_seek_rmode, RK_SEEK },
@@ -99,15 +107,18 @@ static SNDFILE *open_root (void)
 	return md_open (&dev, MODE, &info) ;
 }
 
-static void run_history (const int *h, int depth)
-{	SNDFILE *sf = open_root () ; char rs [96] ; uint64_t oh = VL_H0 ;
+/* check == 0: silent run that only computes the transcript of the valid operations (used as the reference with the invalid calls removed) */
+static uint64_t run_history (const int *h, int depth, int check)
+{	SNDFILE *sf = open_root () ; char rs [96] ; uint64_t oh = VL_H0, tr = VL_H0 ;
 	snprintf (rs, sizeof (rs), "%s", major_name (F->format)) ;
-	if (! sf) { vl_note ("open refused: %s", sf_strerror (NULL)) ; return ; }
+	if (! sf) { if (check) vl_note ("open refused: %s", sf_strerror (NULL)) ; return 0 ; }
 	for (int i = 0 ; i < depth ; i++)
 	{	const Op *o = &ops [h [i]] ; int kl = o->klass (), e ; uint64_t before_meta = pk_meta_hash (sf), before_dev = md_hash (&dev) ; long r ; const char *txt ;
 		r = o->run (sf) ;
 		INLIB (e = sf_error (sf)) ; INLIB (txt = sf_strerror (sf)) ;
 		if (o->run == op_chunksize_null) { INLIB (e = sf_error (NULL)) ; INLIB (txt = sf_strerror (NULL)) ; }	/* no handle involved: the error is global */
+		if (kl == V_VALID) { tr = vl_hash_u64 (r, vl_hash_u64 (e, tr)) ; if (o->run == op_read1 && r == 1) tr = vl_hash (sbuf, CH * 2, tr) ; }
+		if (! check) continue ;
 		vl_note ("%s (%s) -> %ld, sf_error=%d", o->name, kl == V_VALID ? "valid" : "invalid", r, e) ;
 		vl_count_transitions (1) ;
 		oh = vl_hash_u64 (r, vl_hash_u64 (e, oh)) ;
@@ -137,8 +148,22 @@ static void run_history (const int *h, int depth)
 				vl_violation (rt_sig ("%s|%s|file-changed", rs, o->name), "invalid %s changed the file contents", o->name) ;
 			}
 		}
-	INLIB (sf_close (sf)) ;
+	{	int rc ; INLIB (rc = sf_close (sf)) ; tr = vl_hash_u64 (rc, tr) ; }
+	tr = vl_hash_u64 (md_hash (&dev), tr) ;
 	(void) oh ;
+	if (check)
+	{	/* the invalid calls must be invisible to the valid ones: same results, same final file as the history without them */
+		int filtered [8], nf = 0, ninv = 0 ;
+		for (int i = 0 ; i < depth ; i++) if (ops [h [i]].klass () == V_VALID) filtered [nf++] = h [i] ; else ninv ++ ;
+		if (ninv > 0 && nf > 0)
+		{	uint64_t ref = run_history (filtered, nf, 0) ;
+			if (ref != tr)
+			{	int last = -1 ; for (int i = 0 ; i < depth ; i++) if (ops [h [i]].klass () != V_VALID) last = i ;
+				vl_violation (rt_sig ("%s|%s|invalid-call-not-invisible", rs, ops [h [last]].name), "results of the valid calls or the final file differ from the same history without its invalid calls") ;
+				}
+			}
+		}
+	return tr ;
 }
 
 static void error_table (void)
@@ -228,7 +253,7 @@ void harness_run (void)
 			{	char pre [200] ; int h [6], depth ; snprintf (pre, sizeof (pre), "C09 H fmt=%s mode=%s hist=", F->name, mode_name (MODE)) ;
 				if (strncmp (rp, pre, strlen (pre)) != 0) continue ;
 				depth = parse_hist (rp + strlen (pre), h) ;
-				if (depth > 0 && vl_case ("%s", rp)) { run_history (h, depth) ; vl_end (1, 0) ; }
+				if (depth > 0 && vl_case ("%s", rp)) { run_history (h, depth, 1) ; vl_end (1, 0) ; }
 				return ;
 				}
 			/* one case per first operation; the case explores every continuation to the depth bound */
@@ -244,7 +269,7 @@ void harness_run (void)
 						for (int d = 1 ; d < depth ; d++) { h [d] = usable [c % nu] ; c /= nu ; }
 						for (int d = 0 ; d < depth ; d++) { if (d) strcat (hs, ",") ; strcat (hs, ops [h [d]].name) ; }
 						vl_subcase ("C09 H fmt=%s mode=%s hist=%s", F->name, mode_name (MODE), hs) ;
-						run_history (h, depth) ; hist ++ ;
+						run_history (h, depth, 1) ; hist ++ ;
 						}
 					}
 				(void) idx ;
